@@ -425,6 +425,7 @@ func catalogue() []*cat {
 		mk[Wide]("Wide"),
 		mk[SweepRow]("SweepRow"),
 	}
+	theCatalogue = append(theCatalogue, catalogue2()...)
 	return theCatalogue
 }
 
@@ -435,6 +436,9 @@ func catalogue() []*cat {
 func corpus(c *core.Ctx, byName map[string]*cat) {
 	one := func(name string, rows any, split []int) {
 		ct := byName[name]
+		if ct == nil {
+			return
+		}
 		runCase(c, ct, reflect.ValueOf(rows), split, "corpus", reflect.ValueOf(rows).Len() <= 6)
 	}
 	// 697c643: 130 rows, only row 1 / row 65 non-zero on an `optional` int32 field
@@ -447,7 +451,9 @@ func corpus(c *core.Ctx, byName map[string]*cat) {
 		rows := make([]OptOne, 3)
 		rows[1].A = 1
 		one("OptOne", rows, nil)
-		c.Sample(mkReplay(byName["OptOne"], reflect.ValueOf(rows), nil))
+		if byName["OptOne"] != nil {
+			c.Sample(mkReplay(byName["OptOne"], reflect.ValueOf(rows), nil))
+		}
 	}
 	// 9b5ffc8: 9..15 (17..23) non-null values written at once on an optional field
 	for _, k := range []int{9, 10, 11, 12, 13, 14, 15, 17, 23, 25} {
